@@ -350,6 +350,12 @@ func (w *WAL) FirstIndex() (uint64, error) {
 	verifhook.At("FirstIndex.afterClosedCheck", w.dir)
 	s, release := w.acquireState()
 	defer release()
+	// Close swaps in an empty state after setting the closed flag, if we raced
+	// with it we may have just acquired that (or a state whose files are already
+	// closed) so check again now we hold a reference.
+	if err := w.checkClosed(); err != nil {
+		return 0, err
+	}
 	return s.firstIndex(), nil
 }
 
@@ -361,6 +367,10 @@ func (w *WAL) LastIndex() (uint64, error) {
 	verifhook.At("LastIndex.afterClosedCheck", w.dir)
 	s, release := w.acquireState()
 	defer release()
+	// See comment in FirstIndex
+	if err := w.checkClosed(); err != nil {
+		return 0, err
+	}
 	return s.lastIndex(), nil
 }
 
@@ -372,6 +382,10 @@ func (w *WAL) GetLog(index uint64, log *raft.Log) error {
 	verifhook.At("GetLog.afterClosedCheck", w.dir)
 	s, release := w.acquireState()
 	defer release()
+	// See comment in FirstIndex
+	if err := w.checkClosed(); err != nil {
+		return err
+	}
 	w.metrics.IncrementCounter("log_entries_read", 1)
 
 	raw, err := s.getLog(index)
@@ -407,6 +421,11 @@ func (w *WAL) StoreLogs(logs []*raft.Log) error {
 	// Ensure queued rotation has completed before us if we raced with it for
 	// write lock.
 	w.awaitRotationLocked()
+
+	// Close may have completed while we were waiting for the lock.
+	if err := w.checkClosed(); err != nil {
+		return err
+	}
 
 	if w.stateErr != nil {
 		return fmt.Errorf("WAL must be re-opened after failed metadata update: %w", w.stateErr)
@@ -524,6 +543,11 @@ func (w *WAL) DeleteRange(min uint64, max uint64) error {
 	// write lock.
 	w.awaitRotationLocked()
 
+	// Close may have completed while we were waiting for the lock.
+	if err := w.checkClosed(); err != nil {
+		return err
+	}
+
 	if w.stateErr != nil {
 		return fmt.Errorf("WAL must be re-opened after failed metadata update: %w", w.stateErr)
 	}
@@ -584,7 +608,14 @@ func (w *WAL) Set(key []byte, val []byte) error {
 	}
 	verifhook.At("Set.afterClosedCheck", w.dir)
 	w.metrics.IncrementCounter("stable_sets", 1)
-	return w.metaDB.SetStable(key, val)
+	err := w.metaDB.SetStable(key, val)
+	if err != nil {
+		// If we raced with Close the meta store may have been closed under us.
+		if cerr := w.checkClosed(); cerr != nil {
+			return cerr
+		}
+	}
+	return err
 }
 
 // Get implements raft.StableStore
@@ -594,7 +625,14 @@ func (w *WAL) Get(key []byte) ([]byte, error) {
 	}
 	verifhook.At("Get.afterClosedCheck", w.dir)
 	w.metrics.IncrementCounter("stable_gets", 1)
-	return w.metaDB.GetStable(key)
+	val, err := w.metaDB.GetStable(key)
+	if err != nil {
+		// If we raced with Close the meta store may have been closed under us.
+		if cerr := w.checkClosed(); cerr != nil {
+			return nil, cerr
+		}
+	}
+	return val, err
 }
 
 // SetUint64 implements raft.StableStore. We assume the same key space as Set
@@ -989,7 +1027,11 @@ func (w *WAL) Close() error {
 	defer w.writeMu.Unlock()
 
 	// It doesn't matter if there is a rotation scheduled because runRotate will
-	// exist when it sees we are closed anyway.
+	// exist when it sees we are closed anyway. It won't signal completion though
+	// so we must unblock any writer that is already waiting for that rotation.
+	if w.awaitRotate != nil {
+		close(w.awaitRotate)
+	}
 	w.awaitRotate = nil
 	// Awake and terminate the runRotate
 	close(w.triggerRotate)
